@@ -94,7 +94,10 @@ def _prune(name, flavour, keep):
             except OSError:
                 pass
     olds.sort(reverse=True)
-    for _, fn in olds[KEEP_PER_BINARY - 1:]:
+    now = time.time()
+    for mt, fn in olds[KEEP_PER_BINARY - 1:]:
+        if now - mt < 3 * 3600:   # possibly in use by a concurrent check on another tree (binaries are touched when used)
+            continue
         try:
             os.unlink(os.path.join(d, fn))
         except OSError:
